@@ -91,3 +91,90 @@ def run_both(paths, inputs, exts, pcfg=PCFG_DEBUG, release=False):
     impl = common.run_lines(os.path.join(bindir, "events"), cases, tag="impl")
     model = common.run_lines(paths["runner"], cases, env={"PCFG": pcfg}, tag="model")
     return [(s, e, norm(a), norm(b)) for (s, e), a, b in zip(meta, impl, model)]
+
+
+# --------------------------------------------------------------------------
+# helpers shared by the checks
+
+def lev_disagreements(paths, inputs, exts, keys=("T", "E", "M"), release=False):
+    """L-lex/L-ev correspondence on inputs x exts. Returns (list of (repr, replay dict), n_cases, n_panics)."""
+    res = run_both(paths, inputs, exts, pcfg=PCFG_RELEASE if release else PCFG_DEBUG, release=release)
+    bad = []
+    panics = 0
+    for s, e, a, b in res:
+        if a == b:
+            if "panic" in a:
+                panics += 1
+            continue
+        da, db = split3(a), split3(b)
+        for k in keys:
+            if da.get(k) != db.get(k):
+                bad.append((s, {"input": s, "input_hex": hx(s), "ext": e, "part": k,
+                                "build": "release" if release else "debug",
+                                "impl": da.get(k, "")[:1500], "model": db.get(k, "")[:1500]}))
+                break
+    return bad, len(res), panics
+
+
+def mutate(text, rng):
+    """G_bad: one token-level mutation of a well-formed text"""
+    if not text:
+        return text
+    k = rng.random()
+    i = rng.randrange(len(text))
+    specials = "@#~{}()%|-=>:/.\\&?+[]*\n "
+    if k < 0.3:
+        return text[:i] + text[i + 1:]
+    if k < 0.6:
+        return text[:i] + rng.choice(specials) + text[i:]
+    if k < 0.8:
+        return text[:i] + text[i] + text[i:]
+    j = rng.randrange(len(text))
+    a, b = min(i, j), max(i, j)
+    return text[:a] + text[b] + text[a + 1:b] + text[a] + text[b + 1:] if a < b else text
+
+
+def run_pmon(paths, inputs, ext_conv):
+    """monitor binary on inputs x [(ext, conv)]; returns list of (input, ext, conv, violations list)"""
+    bindir = common.build_harness(["pmon"])
+    cases = []
+    meta = []
+    for s in inputs:
+        h = hx(s)
+        for e, c in ext_conv:
+            cases.append("%s %d %s" % (h, e, c))
+            meta.append((s, e, c))
+    out = common.run_lines(os.path.join(bindir, "pmon"), cases, tag="pmon")
+    res = []
+    for (s, e, c), l in zip(meta, out):
+        v = [] if l == "V -" else l[2:].split(",")
+        res.append((s, e, c, v))
+    return res
+
+
+FM_LINES = ["---", "--- ", "a: 1", "x", "", ">> k: v", " ---", "---x", "b: [-1]"]
+
+
+def frontmatter_family(maxlines):
+    out = []
+    for k in range(1, maxlines + 1):
+        for combo in itertools.product(FM_LINES, repeat=k):
+            for nl in ("\n", "\r\n"):
+                out.append(nl.join(combo))
+                out.append(nl.join(combo) + nl)
+    return out
+
+
+def grec_texts(rng, n, features=None, profiles=("canonical", "extended")):
+    import grec
+    out = []
+    for i in range(n):
+        prof = profiles[i % len(profiles)]
+        g = grec.Gen(rng, prof, features)
+        text, exp, info = g.recipe()
+        out.append((text, exp, prof, info))
+    return out
+
+
+EXT_ALL = 3818
+SINGLETONS = [2, 8, 32, 64, 128, 512, 1024, 2050]
